@@ -29,6 +29,8 @@ def pStage : P (Option Stage) := do
   | "none" => pure none
   | "chan" => do let k ← P.nat; pure (some (Stage.pure (StageFn.chan k).eval))
   | "chanAdd" => do let k ← P.nat; let l ← P.nat; pure (some (Stage.pure (StageFn.chanAdd k l).eval))
+  | "gray" => pure (some (Stage.pure (StageFn.gray).eval))
+  | "negkey" => pure (some (Stage.pure (StageFn.negKey).eval))
   | "affine" => do let a ← P.rat; let b ← P.rat; pure (some (Stage.pure (StageFn.affine a b).eval))
   | "clip" => do let lo ← P.rat; let hi ← P.opt P.rat; pure (some (Stage.pure (StageFn.clip lo hi).eval))
   | _ => failure
